@@ -150,6 +150,114 @@ def one_guard(fx, eng, rep, m, g):
             body(fx, rep, m, g, f, 'C07.DTOR', ownv, rel_key, rel_fn, assign=False)
         elif f.get('move_assign'):
             body(fx, rep, m, g, f, 'C07.ASSIGN', ownv, rel_key, rel_fn, assign=True)
+        elif f['kind'] == 'method' and not f.get('const') and not f.get('copy_assign') and not m.eng.private_helper(f):
+            # (a private helper - `ReleaseIfOwned()` shared by the destructor and the move assignment - is followed inside its callers)
+            other_member(fx, rep, m, g, f, ownv, rel_key)
+    swap_functions(fx, rep, m, g)
+
+
+def exchange_status(p, a, b, fields):
+    """what a path did to two guard objects (a, b = their addresses): 'none' (no member of either changed), 'full' (every member
+    of a holds b's entry value and vice versa: a swap), else 'partial'"""
+    changed = same = swapped = 0
+    for fld in fields:
+        ea, eb = S(show(('field', a, fld))), S(show(('field', b, fld)))
+        fa = p.store.get(('field', a, fld), ea)
+        fb = p.store.get(('field', b, fld), eb)
+        def eq(x, y):
+            return x == y or (isinstance(x, tuple) and isinstance(y, tuple) and x[:2] == y[:2] and x[0] == 's')
+        if eq(fa, ea) and eq(fb, eb):
+            same += 1
+        elif eq(fa, eb) and eq(fb, ea):
+            swapped += 1
+        else:
+            changed += 1
+    if not changed and not swapped:
+        return 'none'
+    if not changed and not same:
+        return 'full'
+    return 'partial'
+
+
+def guard_params(f, gname):
+    return [q for q in f['params'] if q.get('isref') and q['type'].get('ct', '').replace('const ', '').strip() == gname]
+
+
+def swap_functions(fx, rep, m, g):
+    """a function that exchanges two guards (a member swap(other), a hidden-friend / free swap(a, b)) exchanges every member:
+    an exchange that leaves one member behind separates the ownership flag / the version to publish from the lock it belongs to"""
+    rec = m.guards[g]
+    gname = rec['name']
+    fields = [x['name'] for x in rec['fields']]
+    sname = short(gname)
+    for f in fx.functions.values():
+        if not f.get('blocks') or f.get('record') == gname:
+            continue
+        gp = guard_params(f, gname)
+        if len(gp) != 2 or len(f['params']) != 2:
+            continue
+        a, b = S('&' + gp[0]['name']), S('&' + gp[1]['name'])
+        for p in m.eng.paths(f)['paths']:
+            st = exchange_status(p, a, b, fields)
+            if st == 'none':
+                continue
+            rep.check(st == 'full', 'C07.MEMBER', '%s exchanges two %s objects completely' % (short(f['name']), sname), '%s:%s' % (f['file'], p.ret_line or f['line']),
+                      'every member swapped', 'some members of the two guards are exchanged and others are not (%s): the ownership and the data that goes with it end up in different guards'
+                      % ', '.join('%s: %s / %s' % (fld, show(p.store.get(('field', a, fld))), show(p.store.get(('field', b, fld)))) for fld in fields))
+
+
+def other_member(fx, rep, m, g, f, ownv, rel_key):
+    """C07.MEMBER: any further member function of an owning guard (an early `Unlock()`, a `TryUpgrade...`, a `reset()` added
+    next to the conversions) keeps the books of the grant: on every path the grant owned at entry is still owned (member
+    untouched, nothing released), or released once and the guard left empty, or handed to a returned owning guard and the
+    guard left empty."""
+    own, ptr = m.own_field[g], m.ptr_field[g]
+    sname = short(f['name'])
+    guard_recs = {r['name'] for r in m.guards.values()}
+    gp = guard_params(f, m.guards[g]['name'])
+    fields = [x['name'] for x in m.guards[g]['fields']]
+    for p in m.paths(f)['paths']:
+        if p.end == 'throw':
+            continue
+        loc = '%s:%s' % (f['file'], p.ret_line or f['line'])
+        rels = [e for e in p.events if e['kind'] == 'call' and rel_key is not None and e.get('callee') == rel_key]
+        if len(gp) == 1 and len(f['params']) == 1 and not rels:
+            st = exchange_status(p, S('this'), S('&' + gp[0]['name']), fields)
+            if st == 'full':
+                rep.ok('C07.MEMBER', '%s exchanges the two guards completely' % sname, loc, 'every member swapped')
+                continue
+            if st == 'partial':
+                rep.violation('C07.MEMBER', '%s exchanges the two guards completely' % sname, loc,
+                              'some members are exchanged with the other guard and others are not: the ownership and the data that goes with it end up in different guards')
+                continue
+        final = p.store.get(('field', S('this'), own), ownv)
+        unchanged = final in (ownv, S('this->' + own))
+        if not rels and unchanged:
+            continue
+        t = m.truth(ownv, p)
+        if t is None:
+            t = m.truth(S('this->' + own), p)
+        empty = is_const(final) and final[1] == 0
+        what = '%s keeps the books of the grant (owned, or released once and empty, or handed over and empty)' % sname
+        if t is None:
+            rep.violation('C07.MEMBER', what, loc, 'the function releases / gives up the grant on a path that does not test whether the guard owns one')
+            continue
+        if not t:
+            rep.check(not rels, 'C07.MEMBER', what, loc, 'empty guard: nothing released', 'release called although the guard owns nothing')
+            continue
+        r = p.ret
+        handed = isinstance(r, tuple) and r and r[0] == 'obj' and r[1] in guard_recs and len(r[3]) >= 1 and \
+            m.truth(r[3][0], p) is not False and r[3][0] in (S('this->' + ptr), ('s', 'this->' + ptr, 64))
+        if len(rels) == 1 and empty and rels[0].get('objptr') == S('this->' + ptr):
+            rep.ok('C07.MEMBER', what, loc, 'released once, guard left empty')
+        elif not rels and empty and handed:
+            rep.ok('C07.MEMBER', what, loc, 'grant handed to the returned guard')
+        elif not rels and empty:
+            rep.violation('C07.MEMBER', what, loc, 'the guard is emptied on a path that neither releases the grant nor hands it to a returned guard: the grant is never released')
+        elif rels and not empty:
+            rep.violation('C07.MEMBER', what, loc, '%d release(s) but the guard still owns afterwards (%s = %s): the destructor releases the same grant again' % (len(rels), own, show(final)))
+        else:
+            rep.violation('C07.MEMBER', what, loc, '%d release(s), %s = %s afterwards' % (len(rels), own, show(final)))
 
 
 def body(fx, rep, m, g, f, rule, ownv, rel_key, rel_fn, assign):
